@@ -187,6 +187,13 @@ func r06_2(c *Ctx, rule string) {
 		if !isR || len(r.Results) != 1 {
 			return
 		}
+		// (io/fs.FileMode).IsRegular is this very test by definition
+		if call, isC := r.Results[0].(*ssa.Call); isC {
+			if cal := call.Call.StaticCallee(); cal != nil && cal.String() == "(io/fs.FileMode).IsRegular" && len(call.Call.Args) == 1 && eng.Strip(call.Call.Args[0]) == ssa.Value(f.Params[0]) {
+				ok = true
+			}
+			return
+		}
 		bo, isB := r.Results[0].(*ssa.BinOp)
 		if !isB || bo.Op != token.EQL {
 			return
